@@ -27,7 +27,8 @@ type oCase struct {
 	Cli  []string          `json:"cli"`
 	// "-config <file>" after the other arguments instead of before them
 	CfgLast bool `json:"cfglast"`
-	// other spellings the flag package accepts for naming the file: "eq" = -config=<file>, "dd" = --config <file>
+	// other spellings the flag package accepts for naming the file: "eq" = -config=<file>, "dd" = --config <file>;
+	// "link": the named path is a symbolic link to the file
 	CfgForm string `json:"cfgform"`
 }
 
@@ -77,6 +78,13 @@ func oRun(c oCase, dir string) (res oRes) {
 		}
 	}
 	// the configuration file is named the documented way; an absent file is simply not there
+	if c.CfgForm == "link" && c.File != nil {
+		// the path names a symbolic link to the file (a ConfigMap volume, /etc/alternatives, stow)
+		real := filepath.Join(dir, "vflow.conf.real")
+		os.Remove(real)
+		os.Rename(cfg, real)
+		os.Symlink(real, cfg)
+	}
 	if c.CfgForm == "eq" {
 		args = append(args, "-config="+cfg)
 		args = append(args, c.Cli...)
